@@ -1,0 +1,7 @@
+//go:build !verif
+
+package internals
+
+// VerifOnField is an observation point used by the verification harness (build tag `verif`).
+// Without the tag it does nothing.
+func VerifOnField(path *PathBuilder, key string) {}
